@@ -29,6 +29,7 @@ type Frame struct {
 	scopeAt    token.Pos // position for local-name lookup in loop invariants
 	boxed      map[*types.Var]bool
 	oldCur     *State                // current state while evaluating old(...): locals created after entry read from it
+	loopEntry  []*State              // entry states of the enclosing loops with invariants (innermost last): before(e)
 	memo       map[*ast.CallExpr]Val // results of calls being re-run path by path (withFork)
 	pointees   []pointee
 	paramCells []*Cell
